@@ -1513,6 +1513,24 @@ def _m_sorted(ctx, it, key=None, reverse=False):
     return out
 
 
+import itertools as _itertools
+
+
+@register(_itertools.groupby)
+def _m_groupby(ctx, iterable, key=None):
+    """itertools.groupby: runs of CONSECUTIVE items with equal keys (the real semantics); keys must compare concretely."""
+    from .interp import call_value, GenList, truth
+    items = _values(ctx, iterable)
+    out = []
+    for x in items:
+        k = call_value(ctx, key, [x], {}) if key is not None else x
+        if out and truth(ctx, out[-1][0] == k):
+            out[-1][1].append(x)
+        else:
+            out.append((k, [x]))
+    return GenList([(k, GenList(g)) for k, g in out])
+
+
 import heapq as _heapq
 
 
